@@ -92,10 +92,23 @@ Theorem C04_expire_only_passed : forall lo now lim t r,
 Proof. exact expire_selects_passed. Qed.
 Print Assumptions C04_expire_only_passed.
 
-(* "expire() removes EVERY passed item": false for negative absolute expiry times (known finding C04-F1).
-   The positive half for non-negative times (any number of items sharing a time, any number of pages) is
-   C04_expire_exact_partial in ExpireLoopFacts when present; it is checked by the monitor on every run. *)
+
 Theorem C04_expire_negative_time_refuted :
   exists s now r, In r (rows s) /\ passed now r = true /\ In r (rows (fst (op_expire s now))).
 Proof. exact expire_negative_time_refuted. Qed.
 Print Assumptions C04_expire_negative_time_refuted.
+
+From DC Require Import EvictBridge EvictFacts ExpireExact.
+
+(* expire(): for every table with distinct rowids (every reachable state), any number of items, any sharing
+   of expiry times, any number of 100-row pages: it removes only passed items, it leaves no item with
+   0 <= expire_time < now, and it returns the number of items it removed.  (Full statement "every passed
+   item" is refuted above for negative absolute expiry times: finding C04-F1.) *)
+Theorem C04_expire_exact_partial : forall s now s' n,
+  wf s -> op_expire s now = (s', RInt n) ->
+  (forall r, In r (rows s') -> In r (rows s))
+  /\ (forall r, removed s s' r -> passed now r = true)
+  /\ (forall r, In r (rows s') -> expire_due 0 now r = false)
+  /\ n = Z.of_nat (length (rows s)) - Z.of_nat (length (rows s')).
+Proof. exact expire_exact_partial. Qed.
+Print Assumptions C04_expire_exact_partial.
